@@ -62,6 +62,15 @@ ProgsKu == Combos([g \in G3 |-> CASE g = 1 -> {<<"Read", "Read">>}
                                   [] g = 2 -> {<<"Write", "Write2">>, <<"Write", "CloseWrite">>}
                                   [] g = 3 -> {<<"ConnState", "Close">>, <<"Write">>}])
 
+ProgsRnQ == Combos([g \in G3 |-> CASE g = 1 -> {<<"Read">>}
+                                   [] g = 2 -> {<<"ConnState", "Write">>}
+                                   [] g = 3 -> {<<"Handshake", "ConnState">>, <<"ConnState", "Close">>}])
+ProgsKuQ == Combos([g \in G3 |-> CASE g = 1 -> {<<"Read", "Read">>}
+                                   [] g = 2 -> {<<"Write", "Write2">>}
+                                   [] g = 3 -> {<<"ConnState", "Close">>, <<"Write">>}])
+KuTags == {"ku_wait"}
+RnTags == {"rn", "rn_wait"}
+
 \* generation: programs over all call kinds, any role on any goroutine
 AnyMenu == ReaderMenuT \cup WriterMenuT \cup CloserMenuT
 ProgsGen3 == [G3 -> AnyMenu]
